@@ -25,7 +25,7 @@ var preludeFuns = map[string]struct {
 	"sz_varint": {1, "Int"}, "wrap8": {1, "Int"}, "wrap16": {1, "Int"}, "wrap32": {1, "Int"}, "wrap64": {1, "Int"},
 	"uwrap8": {1, "Int"}, "uwrap16": {1, "Int"}, "uwrap32": {1, "Int"}, "uwrap64": {1, "Int"},
 	"tdiv": {2, "Int"}, "trem": {2, "Int"}, "uv_n": {3, "Int"}, "uv_value": {3, "Int"}, "uv_val": {2, "Int"},
-	"uv_len": {2, "Int"}, "unzigzag": {1, "Int"},
+	"uv_len": {2, "Int"}, "unzigzag": {1, "Int"}, "rangebound": {3, "Int"}, "rangestep": {2, "Int"},
 }
 
 // call lowers a call expression and returns its results.
@@ -208,6 +208,15 @@ func (l *Lowerer) call(ce *ast.CallExpr) ([]*Term, []types.Type) {
 				}
 				return []*Term{Select(Select(val, m), k)}, []types.Type{mtyp.Elem()}
 			}
+		}
+		if (id.Name == "rangebound" || id.Name == "rangestep") && l.spec {
+			// real-valued definitions used by the range strategy: declared (with their defining axiom) only in
+			// the queries that mention them
+			r := l.p.reg
+			r.Fun("rangebound", []string{"Int", "Int", "Int"}, "Int")
+			r.Axiom("rangebound", "(forall ((i Int) (n Int) (m Int)) (! (= (rangebound i n m) (to_int (+ (* (to_real i) (/ (to_real n) (to_real m))) 0.5))) :pattern ((rangebound i n m))))")
+			r.Fun("rangestep", []string{"Int", "Int"}, "Int")
+			r.Axiom("rangestep", "(forall ((n Int) (m Int)) (! (= (rangestep n m) (to_int (/ (to_real n) (to_real m)))) :pattern ((rangestep n m))))")
 		}
 		if pf, ok := preludeFuns[id.Name]; ok && l.spec {
 			var args []*Term
@@ -539,6 +548,11 @@ func (l *Lowerer) conversion(v *Term, from, to types.Type, node ast.Node) *Term 
 		}
 		return v
 	case ts == "Int" && v.Sort == "Real":
+		if v.Op == "to_real" && len(v.Args) == 1 && v.Args[0].Sort == "Int" {
+			// the conversion of an integral real (e.g. the result of math.Floor) is that integer
+			l.note("A-float: floating point arithmetic treated as real arithmetic")
+			return v.Args[0]
+		}
 		l.p.reg.Fun("real2int", []string{"Real"}, "Int")
 		r := App("real2int", "Int", v)
 		// truncation toward zero
@@ -2140,11 +2154,46 @@ func (l *Lowerer) externalCall(callee *types.Func, recv *Term, recvTyp types.Typ
 					continue
 				}
 			}
+			// sort.Sort(&T{..., field: s, ...}) with exactly one slice-valued field: s is what gets sorted
+			lit, _ := ast.Unparen(target).(*ast.CompositeLit)
+			if ue, ok := ast.Unparen(target).(*ast.UnaryExpr); ok && ue.Op == token.AND {
+				lit, _ = ast.Unparen(ue.X).(*ast.CompositeLit)
+			}
+			if lit != nil {
+				var sliceVals []ast.Expr
+				for _, el := range lit.Elts {
+					v := el
+					if kv, ok := el.(*ast.KeyValueExpr); ok {
+						v = kv.Value
+					}
+					if t := l.typeOf(v); t != nil {
+						if _, isSlice := t.Underlying().(*types.Slice); isSlice {
+							sliceVals = append(sliceVals, v)
+						}
+					}
+				}
+				if len(sliceVals) == 1 {
+					target = sliceVals[0]
+					continue
+				}
+			}
 			break
 		}
 		lv := l.slicePlace(target)
 		if lv == nil {
 			break
+		}
+		// the sorted slice is the value variable of the enclosing range over a map: the map entry shares its
+		// backing array, so the entry is permuted with it
+		var aliasMap ast.Expr
+		var aliasKey ast.Expr
+		if id, ok := ast.Unparen(target).(*ast.Ident); ok && len(l.rangeStack) > 0 {
+			rs := l.rangeStack[len(l.rangeStack)-1]
+			if vid, ok := rs.Value.(*ast.Ident); ok && rs.Key != nil && l.info().ObjectOf(vid) == l.info().ObjectOf(id) {
+				if _, isMap := l.typeOf(rs.X).Underlying().(*types.Map); isMap {
+					aliasMap, aliasKey = rs.X, rs.Key
+				}
+			}
 		}
 		// freeze the old value, store the permuted one, and state the facts over variables (clean triggers)
 		oldv := l.tmp(lv.whole.Sort)
@@ -2158,6 +2207,11 @@ func (l *Lowerer) externalCall(callee *types.Func, recv *Term, recvTyp types.Typ
 		newv := l.tmp(w.Sort)
 		l.assign(newv, w.Sort, l.load(lv.pl))
 		nw := V(newv, w.Sort)
+		if aliasMap != nil {
+			if mpl := l.placeOf(&ast.IndexExpr{X: aliasMap, Index: aliasKey}); mpl != nil {
+				l.store(mpl, nw)
+			}
+		}
 		l.quantN++
 		k := &Term{Op: "bound", Name: fmt.Sprintf("sk!%d", l.quantN), Sort: "Int"}
 		l.quantN++
@@ -2204,6 +2258,10 @@ func (l *Lowerer) externalCall(callee *types.Func, recv *Term, recvTyp types.Typ
 			l.assign(cnt.Name, cnt.Sort, Store(cnt, recv, Add(Select(cnt, recv), d)))
 		}
 		return nil
+	case "math.Floor":
+		// A-float: float64 is modelled by the reals; Floor is the mathematical floor
+		l.note("A-float: float64 arithmetic is treated as exact real arithmetic (math.Floor = floor)")
+		return []*Term{App("to_real", "Real", App("to_int", "Int", args[0]))}
 	case "errors.New", "fmt.Errorf":
 		e := l.alloc()
 		return []*Term{e}
